@@ -23,6 +23,8 @@ const prelude = `(declare-datatypes ((Ref 0)) (((R (rid Int)) (Sub (sbase Ref) (
 (declare-fun int_shl (Int Int) Int)
 (declare-fun int_shr (Int Int) Int)
 (declare-fun str_lt (String String) Bool)
+(assert (forall ((x Int)) (! (= (int_and 0 x) 0) :pattern ((int_and 0 x)))))
+(assert (forall ((x Int)) (! (= (int_and x 0) 0) :pattern ((int_and x 0)))))
 (declare-fun at (Int Int) Int)
 (assert (forall ((o Int) (i Int)) (! (= (at o i) (+ o i)) :pattern ((at o i)))))
 `
